@@ -5,13 +5,13 @@ from collections import Counter
 
 from ..driver import Clause, Outcome
 from ..langgen import lang_classes
-from ..modelgen import lang_and_model, defenses_of
+from ..modelgen import lang_and_model, defenses_of, corelang_models, shipped_spec
 from ..ref_eval import AbstractModel, evaluate
 from ..ref_lang import Lang
 from .c01 import generate_graph
 
 PROPERTY = 'C02'
-RULE = ('G_lang x G_model with colliding / colon-containing / YAML-significant asset names, explicit ids '
+RULE = ('G_lang x G_model (and G_model over the shipped coreLang) with colliding / colon-containing / YAML-significant asset names, explicit ids '
         '(0, negative, gaps), non-default defense values, inherited / overridden / extended steps and '
         'E / !E steps. Oracle: expected node multiset and attributes computed from the case description '
         'with the reference inheritance fold and the reference evaluator; ids and full names must be '
@@ -137,16 +137,27 @@ def check_case(case) -> Outcome:
     return out
 
 
+def check_corelang(case) -> Outcome:
+    spec = shipped_spec()
+    if spec is None:
+        return Outcome()
+    return check_case({'spec': spec, 'model': case['model']})
+
+
 CLAUSES = [
     Clause('random', check_case, kind='random',
            strategy=lambda: lang_and_model(
                {'max_assets': 5, 'max_expr_depth': 2, 'deep_chains': True},
                {'max_assets': 6, 'weird_names': True, 'explicit_ids': True, 'attackers': False,
                 'min_assets': 1}),
-           budget={'quick': 3000, 'thorough': 40000}),
+           budget={'quick': 8000, 'thorough': 60000}),
     Clause('random-plain-names', check_case, kind='random',
            strategy=lambda: lang_and_model(
                {'max_assets': 6, 'max_expr_depth': 2},
                {'max_assets': 7, 'explicit_ids': True, 'attackers': False, 'min_assets': 2}),
-           budget={'quick': 1500, 'thorough': 20000}),
+           budget={'quick': 4000, 'thorough': 30000}),
+    Clause('corelang-models', check_corelang, kind='random',
+           strategy=lambda: corelang_models(max_assets=6, attackers=False, weird_names=True, explicit_ids=True,
+                                            min_assets=1).map(lambda m: {'model': m}),
+           budget={'quick': 480, 'thorough': 6000}),
 ]
